@@ -10,8 +10,16 @@ from vplib import *
 import lmmm
 from lmmm import *
 
-OCAML = lmmm.OCAML
-HARNESS = lmmm.HARNESS
+import importlib.util as _ilu0, sys as _sys0
+if os.path.join(VERIF, "checks") not in _sys0.path:
+    _sys0.path.insert(0, os.path.join(VERIF, "checks"))
+def _load_part(name):
+    sp = _ilu0.spec_from_file_location("part_" + name, os.path.join(VERIF, "checks", name + ".py"))
+    m = _ilu0.module_from_spec(sp); sp.loader.exec_module(m)
+    return m
+mir_part = _load_part("mir_part")
+OCAML = lmmm.OCAML + mir_part.OCAML
+HARNESS = lmmm.HARNESS + mir_part.HARNESS
 
 
 def run(ck):
@@ -137,7 +145,12 @@ def run(ck):
                 bump("wide_self_" + sh)
             if r.get('vm') and r['vm'].get('skel') not in seen_sk and r['vm'].get('skel') != "[]":
                 seen_sk.add(r['vm']['skel'])
-    for what, src, det in mviol[:3]:
+    # ---------------- MIR part: verified static checker of the state layer on the real compiler's MIR (checks/mir_part.py) --------
+    mir_viol = mir_part.run_part(ck, quick)
+    for what, obj in mir_viol[:6]:
+        ck.violation(what, {k: v for k, v in obj.items() if k != "no_input"}, no_input=bool(obj.get("no_input")))
+    mviol = mviol + [(w, None, {}) for w, _ in mir_viol]
+    for what, src, det in [m_ for m_ in mviol if m_[1] is not None][:3]:
         ck.violation(what, {"source": src, **det, "how": "echo '{\"src\":<source>,\"n\":N,\"state\":true}' | .cache/target/lang/debug/lmmm_run"})
     viol = viol + [(w, None, d) for w, _, d in mviol]      # keeps the no-failing-input branches below quiet
     ck.coverage["evaluations"] = len(cases)
@@ -173,9 +186,19 @@ def finish(ck):
                      "Gallina compile/machine mirror mirgen.rs' state-offset bookkeeping and vm.rs/wasm.rs' state primitives and are tied to "
                      "the code by comparing skeleton, access trace (hook H1), cursor and flat words on generated programs; the property's "
                      "own predicates (events hit cells, cursor home, VM words = WASM words) are evaluated directly on the implementation. "
-                     "Not modelled: bytecodegen register allocation, wasmgen lowering, closures' private state storages, tuple-valued self."),
+                     "Not modelled: bytecodegen register allocation, wasmgen lowering, closures' private state storages, tuple-valued self.  MIR PART "
+                     "(Props/C05_mir.v, theory Mirst, checks/mir_part.py) — translation validation for WHOLE programs: the real compiler's MIR is "
+                     "dumped, its state view (push/pop/getstate/returnfeed/delay/mem/calls/branches) is judged by a checker written in Gallina "
+                     "whose soundness is proved (C05_mir_sound: accepted => on EVERY path of every function, through callees, no fault, every "
+                     "access hits exactly one cell of the function's published skeleton with its offset, kind and size, cursor home at every "
+                     "return, everything inside the storage; C05_mir_strict_separated: no two accesses of a call share a word); the MIR produced "
+                     "before the repairs F2 / F27 is rejected and faults (C05_mir_old_if_refuted, _old_match_refuted).  Every run ~3200 generated "
+                     "and shipped programs (closures, match, tuples, records, higher-order functions included) must be accepted and ~3000 H1 traces "
+                     "of the real VM, closures' own storages included, must be paths of the dumped view."),
         trusted_base=["Coq 8.16.1 kernel", "extraction (ExtrOcamlBasic/ExtrOcamlString), OCaml driver ocaml/lmmm_drv.ml",
                       "hook H1 (vm.rs, cfg mimium_verif) records every StateStorage access", "harness/lang lmmm_run + runner.rs",
-                      "python generator / pretty-printer lib/lmmm.py", "translator statetree_consts"],
+                      "python generator / pretty-printer lib/lmmm.py", "translator statetree_consts",
+                      "MIR part: harness bin mir_dump.rs (Debug variant name + TypeNodeId::word_size per instruction), ocaml/mirst_drv.ml (parser, name -> instruction table), "
+                      "Mirst/Follow.v as an untheoremed test device, the assumptions that SSA registers are unique within a function and that closure / indirect / external calls leave the current storage untouched (validated dynamically by the trace check)"],
         rule=("type-directed generator over the Lmmm AST (functions, self, mem, delay, if, calls, lets, dsp inputs, tuples of outputs); "
               "1 case in 8 allows stateful constructs in `if` arms (class F2); distinct_nontrivial = number of distinct non-empty published skeletons"))
